@@ -241,8 +241,12 @@ class Check:
         p = subprocess.run(["timeout", str(timeout), self.fpcheck, cmd, cj, out] + (extra or []),
                            env=env, capture_output=True, text=True)
         if p.returncode != 0:
-            sys.stderr.write(p.stdout[-2000:] + p.stderr[-4000:])
-            raise Infra("harness %s exited with %d" % (cmd, p.returncode))
+            e = Infra("harness %s exited with %d" % (cmd, p.returncode))
+            e.stderr = p.stderr
+            e.returncode = p.returncode
+            if not getattr(self, "quiet_harness_failure", False):
+                sys.stderr.write(p.stdout[-2000:] + p.stderr[-4000:])
+            raise e
         try:
             summary = json.loads(p.stdout.strip().splitlines()[-1])
         except Exception:
